@@ -57,6 +57,10 @@ pub fn make_case(seed: u64, _tier: Tier, idx: u64) -> Case {
         let (source, cfg, force) = if idx - n_ex < gen::CORPUS.len() as u64 {
             let (cfg, _, _, force) = cfg_from_text(gen::CORPUS[(idx - n_ex) as usize].1);
             (Source::Corpus, cfg, force)
+        } else if idx % 97 == 17 {
+            // every variant of the big family in turn, without competition from smaller grammars
+            let (c, f) = gen::big_cfg_variant(&mut rng, 200, ((idx / 97) % 7) as usize);
+            (Source::Big, c, f)
         } else {
             let mut best: Option<(i64, Source, Cfg, Vec<bool>)> = None;
             for _ in 0..5 {
@@ -123,6 +127,19 @@ pub fn make_case(seed: u64, _tier: Tier, idx: u64) -> Case {
             shuffle_names(&mut m, &mut rng);
         } else if rng.chance(0.3) {
             confusable_terminal_names(&mut m, &mut rng);
+        } else if rng.chance(0.3) {
+            // the hostile naming of C05 (emitter vocabulary for types, variants and fields), here
+            // compiled *and run*: a name coincidence that still compiles but misbehaves
+            let density = *rng.pick(&[0.2, 0.5, 0.9]);
+            crate::engines::compile::adversarial_names(&mut m, &mut rng, density, None);
+            for nt in &mut m.nts {
+                for p in &mut nt.prods {
+                    if p.name == "Error" {
+                        // D13 (known finding of C05): such a module does not compile
+                        p.name = "Error_".into();
+                    }
+                }
+            }
         }
         // long records: fieldsets with 8-14 positions (index suffixes with two digits, many
         // fields of the same type), appended as extra nonterminals reachable from the start
@@ -732,6 +749,8 @@ impl EmitRun {
         w.count_n("reference-cells-exercised", cells_seen.len() as u64);
         w.count_n("reference-error-cells-exercised", err_cells.len() as u64);
         w.max("max-input-length", inputs.iter().map(|(x, _)| x.len()).max().unwrap_or(0) as u64);
+        w.max("max-terminals", c.model.terms.len() as u64);
+        w.max("max-nonterminals", c.model.nts.len() as u64);
         // fieldset patterns exercised
         if prop == "C02" {
             for nt in &c.model.nts {
@@ -760,7 +779,7 @@ impl Engine for EmitRun {
         json!({"class": "generated-grammar", "grammar_src": c.src})
     }
     fn rule(&self, prop: &str) -> String {
-        let common = "grammars: the repository examples (structure only), the textbook corpus, combinator-built and random grammars, rendered with random fieldset styles / used-skipped masks and payload types from a pool of 7 (usize, String, user struct, Vec, Option, nested BTreeMap, unit); each accepted grammar is compiled with rustc and run on: all strings up to a length bound (W1), random sentences (W2), a prefix-extension sweep p·t for every prefix p of short sentences and every terminal t (W3), 1-2 token edits (W4), long sentences up to 5000 tokens (W5, thorough); every input twice (lazy counting iterator + position payloads; Vec or iter::from_fn + pseudo-random payloads). One evaluation = one execution of the compiled parse()";
+        let common = "grammars: the repository examples (structure only), the textbook corpus, combinator-built and random grammars, rendered with random fieldset styles / used-skipped masks and payload types from a pool of 9 (usize, String, user struct, Vec, Option, nested BTreeMap, unit, Option<Box<Vec>>, Vec<Option<Box<Rc>>>); names: default, shuffled, confusable, emitter vocabulary, concatenation twins, the hostile pools of C05; each accepted grammar is compiled with rustc and run on: all strings up to a length bound (W1), random sentences (W2), a prefix-extension sweep p·t for every prefix p of short sentences and every terminal t (W3), 1-2 token edits (W4), long sentences up to 5000 tokens (W5, thorough); every input twice (lazy counting iterator + position payloads; Vec or iter::from_fn + pseudo-random payloads). One evaluation = one execution of the compiled parse()";
         match prop {
             "C01" => format!("{common}; compared with membership decided by the canonical LR(1) reference parser, cross-checked by a definitional chart recogniser (<=40 tokens) and an Earley recogniser (<=120 tokens). Distinct non-trivial = distinct (grammar, token sequence) with >=2 productions and >=1 token."),
             "C02" => format!("{common}; for accepted inputs the {{:?}} rendering of the returned tree is compared with the rendering of the reference derivation (validated by a definitional derivation checker). Distinct non-trivial = distinct (grammar, sentence) whose tree has >=2 used leaves."),
